@@ -1,6 +1,7 @@
 import Usual.Common
 import Usual.C04.Regex
 import Usual.C04.Parse
+import Usual.C04.CMatch
 /-! Model driver for C04 (line protocol of harness/C04/h.c).
 
   x <cflags> <pattern-hex> <nm,..> <ef,..> <subject-hex>...   compile + all execs
@@ -59,6 +60,58 @@ def doX (w : List String) : String :=
               let res := llmatch (mkEnv cflags (ef.getD 0) sb) r
               nms.map fun nmS => tokOf nosub ((nmOf nsub nmS).getD 0) res
         s!"ok nsub={nsub} " ++ " ".intercalate toks
+  | _ => "bad-op"
+
+def pmStr (pm : List (Int × Int)) : String :=
+  ";".intercalate (pm.map fun (a, b) => s!"{a},{b}")
+
+/-- internal token of one exec: what the model of the C matcher (`CM.cExec`) reports — rc and the
+whole pmatch array — cross-checked inside the driver against the proved reference `llmatch` -/
+def cmTok (alts : List (List CM.COp)) (nsub : Nat) (nosub : Bool) (e : Env) (nm : Nat)
+    (ref : Option (Nat × Nat)) : String :=
+  let r := CM.cExec alts nsub nosub e nm 400000 100000
+  if r.rc == CM.OUT_OF_BUDGET || r.rc == CM.OUT_OF_FUEL then "?" else
+  let agree : Bool :=
+    match ref with
+    | none => r.rc == CM.NOMATCH
+    | some (i, j) => r.rc == 0 && (nosub || nm == 0 || r.pm.head? == some ((i : Int), (j : Int)))
+  let t := if r.rc == CM.NOMATCH then "-" else if nosub || nm == 0 then "+" else pmStr r.pm
+  if agree then t else t ++ "!MODEL"
+
+/-- `y` = `x` plus the internal projection (full pmatch arrays from the matcher model) -/
+def doY (w : List String) : String :=
+  match w with
+  | cflagsS :: patS :: nmS :: efS :: subjs =>
+    if subjs.isEmpty then "bad-op" else
+    match compileLine cflagsS patS with
+    | none => "bad-op"
+    | some (cflags, res) =>
+      let nms := splitComma nmS
+      let efs := (splitComma efS).map String.toNat?
+      if nms.isEmpty || efs.isEmpty || efs.any (fun e => match e with | some v => v &&& 48 != v | none => true) then "bad-op"
+      else
+      match res with
+      | .error .unsupported => "unsup"
+      | .error c => s!"err ## code={c.num}"
+      | .ok (r, nsub) =>
+        if nms.any (fun s => (nmOf nsub s).isNone) then "bad-op" else
+        let nosub := cflags.testBit 2
+        match CM.compileOps r with
+        | none => "ok nsub=" ++ toString nsub ++ " nocompile"
+        | some (alts, _) =>
+        let rnsub := r.groups
+        let both := subjs.flatMap fun sh =>
+          match parseHex sh with
+          | none => [("bad-subject", "bad-subject")]
+          | some sb =>
+            if sb.contains 0 then [("bad-subject", "bad-subject")] else
+            efs.flatMap fun ef =>
+              let e := mkEnv cflags (ef.getD 0) sb
+              let res := llmatch e r
+              nms.map fun nmS =>
+                let nm := (nmOf nsub nmS).getD 0
+                (tokOf nosub nm res, cmTok alts rnsub nosub e nm res)
+        s!"ok nsub={nsub} " ++ " ".intercalate (both.map (·.1)) ++ " ## " ++ " ".intercalate (both.map (·.2))
   | _ => "bad-op"
 
 def doP (w : List String) : String :=
@@ -153,6 +206,7 @@ def step (_ : Unit) (line : String) : Unit × String :=
   if l == "#case" then ((), "#case") else
   match words l with
   | "x" :: w => ((), doX w)
+  | "y" :: w => ((), doY w)
   | "p" :: w => ((), doP w)
   | "k" :: w => ((), doK w)
   | "t" :: w => ((), doT w)
